@@ -11,6 +11,7 @@
   hypothesis (`endState .code prefix = .code`) on the real output with an independent lexer.
 -/
 import TsRsVerif.Lemmas.CommentLemmas
+import TsRsVerif.Lemmas.Closed
 namespace TsRs
 open Text Derive Comment
 
@@ -94,6 +95,66 @@ theorem C15_fields_docs_inert : ∀ (fs : List (List Str × Str)), (∀ f ∈ fs
     have hsp : ∀ x, run .code (' ' :: x) = run .code x := by intro x; simp [run, step, codeStep, isWs]
     rw [run_append .code f.2 ([' '] ++ _), run_append .code f.2 ([' '] ++ _), hf]
     rw [List.singleton_append, List.singleton_append, hsp, hsp, ih]
+
+/-- texts built from pieces without `/` and quotes (identifiers, punctuation, numbers, white space) and string literals whose body
+escapes the quote and the backslash — what ts-rs writes for property names, type names, literal types and the punctuation around them -/
+inductive Rendered : Str → Prop where
+  | plain {s : Str} : (∀ c ∈ s, c ≠ '/' ∧ isQuote c = false) → Rendered s
+  | lit {q : Char} {body : Str} : isQuote q = true → LitBody q body → Rendered (q :: (body ++ [q]))
+  | append {a b : Str} : Rendered a → Rendered b → Rendered (a ++ b)
+
+/-- **the context hypothesis holds for every rendering of that kind**: after it the reader is in code again -/
+theorem C15_rendered_closed {s : Str} (h : Rendered s) : endState .code s = .code := by
+  induction h with
+  | plain hp => exact closed_plain _ hp
+  | lit hq hb => exact closed_lit _ hq _ hb
+  | append _ _ iha ihb => exact Closed.append iha ihb
+
+/-- … so documentation on any fields of an object body written from such pieces never changes what is read as code -/
+theorem C15_rendered_fields_docs_inert (fs : List (List Str × Str)) (h : ∀ f ∈ fs, Rendered f.2) :
+    run .code (intercalate [' '] (fs.map fun f => fieldDocs f.1 ++ f.2)) = run .code (intercalate [' '] (fs.map (·.2))) :=
+  C15_fields_docs_inert fs (fun f hf => C15_rendered_closed (h f hf))
+
+/-- **what ts-rs writes for a property name is such a piece**, for EVERY name: an identifier-like name as it is (letters, digits, `_`,
+`$` — given that the character table calls neither `/` nor a quote alphanumeric), anything else through the string-literal routine
+(given the lexical contract `EscLex` of the escape table: what is written for one character has no bare `"` and no dangling backslash;
+proven for the ASCII table, `asciiEsc_lex`) -/
+theorem C15_property_name_rendered (ops : CharOps) (hesc : EscLex ops)
+    (hal : ∀ c, ops.isAlnum c = true → c ≠ '/' ∧ isQuote c = false) (n : Str) :
+    Rendered (Case.rawNameToTsField ops n) := by
+  unfold Case.rawNameToTsField
+  by_cases hv : Case.validName ops n = true
+  · simp only [hv, if_true]
+    refine Rendered.plain ?_
+    intro c hc
+    simp only [Case.validName, Bool.and_eq_true, List.all_eq_true, Bool.or_eq_true, decide_eq_true_eq] at hv
+    rcases hv.1.2 c hc with (h | h) | h
+    · exact hal c h
+    · subst h; decide
+    · subst h; decide
+  · simp only [hv, Bool.false_eq_true, if_false]
+    obtain ⟨body, he, hb⟩ := quoteStr_litBody ops hesc n
+    rw [he]
+    exact Rendered.lit (by decide) hb
+
+/-- the ASCII character table meets both hypotheses -/
+theorem C15_ascii_table_ok : EscLex Case.asciiOps ∧ ∀ c, Case.asciiOps.isAlnum c = true → c ≠ '/' ∧ isQuote c = false := by
+  refine ⟨asciiEsc_lex, ?_⟩
+  intro c h
+  simp only [Case.asciiOps, Case.isAsciiUpper, Case.isAsciiLower, Bool.or_eq_true, Bool.and_eq_true, decide_eq_true_eq] at h
+  constructor
+  · intro e; subst e; revert h; decide
+  · simp only [isQuote, Bool.or_eq_false_iff, decide_eq_false_iff_not]
+    constructor <;> (intro e; subst e; revert h; decide)
+
+/-- non-vacuity: a property with a quoted name that contains a quote, a backslash, `/*` and `//`, and a literal type -/
+example : Rendered "\"a\\\"b\\\\ /* // */\": 'x' | Array<number>,".toList := by
+  have e : "\"a\\\"b\\\\ /* // */\": 'x' | Array<number>,".toList
+      = ('"' :: ("a\\\"b\\\\ /* // */".toList ++ ['"'])) ++ (": ".toList ++ (('\'' :: ("x".toList ++ ['\''])) ++ " | Array<number>,".toList)) := by decide
+  rw [e]
+  refine Rendered.append (Rendered.lit (by decide) ?_) (Rendered.append (Rendered.plain (by decide)) (Rendered.append (Rendered.lit (by decide) ?_) (Rendered.plain (by decide))))
+  · exact litBodyB_sound _ _ (by decide)
+  · exact litBodyB_sound _ _ (by decide)
 
 theorem infix_intercalate_map (f : Str → Str) (sep : Str) : ∀ (xs : List Str) (l : Str), l ∈ xs →
     f l <:+: intercalate sep (xs.map f)
